@@ -1,11 +1,12 @@
 (* P_C12.v — property theorems for C12 only. *)
 From ZT Require Import Base Layers Run RunFacts.
 
-(* After running a list of tests the result object holds: one count per test started, exactly the names of the
-   failing / erroring (sub)tests and unexpected successes in order, and one skip per skip event. *)
+(* After running a list of tests the result object holds: for each test started its countTestCases() (1 for an
+   ordinary test), exactly the names of the failing / erroring (sub)tests and unexpected successes in order, and
+   one skip per skip event. *)
 Theorem C12_result_counts : forall w o l ts s,
   let s' := run_all w o l ts s in
-  rs_run s' = rs_run s + length ts /\
+  rs_run s' = rs_run s + fold_right (fun it a => run_count it + a) 0 ts /\
   rs_fail s' = rs_fail s ++ flat_map fail_names ts /\
   rs_err s' = rs_err s ++ flat_map err_names ts /\
   rs_us s' = rs_us s ++ flat_map us_names ts /\
@@ -48,10 +49,10 @@ Theorem C12_whole_run_ledger : forall w o,
 Proof. exact run_ledger. Qed.
 Print Assumptions C12_whole_run_ledger.
 
-(* the "tests run" total: without --repeat it is the number of test starts over all processes of the run *)
+(* the "tests run" total: without --repeat it is the sum of countTestCases() over the test starts of all processes *)
 From ZT Require Import RunRan.
 Theorem C12_whole_run_tests_run : forall w o, reps o = 1 ->
-  r_ran (run w o) = total nstart_ev (r_parent (run w o)) + sum_children nstart_ev (r_children (run w o)).
+  r_ran (run w o) = total (nrun_ev w) (r_parent (run w o)) + sum_children (nrun_ev w) (r_children (run w o)).
 Proof. exact run_ran. Qed.
 Print Assumptions C12_whole_run_tests_run.
 
